@@ -123,7 +123,7 @@ def cache_key(tier, seed):
     for p in (C.VH, C.DRIVER):
         st = os.stat(p)
         h.update(("%s:%d:%d" % (p, st.st_mtime_ns, st.st_size)).encode())
-    h.update(("v22:%s:%s" % (tier, seed)).encode())
+    h.update(("v24:%s:%s" % (tier, seed)).encode())
     return h.hexdigest()[:16]
 
 
@@ -177,8 +177,15 @@ def run_differential(tier, seed):
                 for ln, (li, lm, le) in enumerate(zip(fi, fm, fe), 1):
                     classes[" ".join(le.split()[:3])] += 1
                     if li != lm:
+                        ks = set(diff_keys(lm, li))
+                        # derived key: the role differs after a call made while a committed membership
+                        # entry was unapplied (meta flag "ucc"): the campaign guards that keep a node's
+                        # configuration at most one change behind its log - what the cluster-safety
+                        # properties rest on under membership change
+                        if "hard.role" in ks and le.rstrip().endswith(" ucc"):
+                            ks.add("conf.guard")
                         dis.append({"file": c, "line": ln, "meta": le.strip(),
-                                    "keys": sorted(diff_keys(lm, li))})
+                                    "keys": sorted(ks)})
         # tie (B): the acceptors of P (election layer, log layer) over the P-level event traces of the same runs
         acc = {}
         for pref, key in (("pel-sim", "pelection"), ("plog-sim", "plog"), ("pread-sim", "pread")):
